@@ -56,5 +56,487 @@ theorem largestOf_mem (cs : List (List Nat)) (h : ∃ c ∈ cs, c ≠ []) : larg
     | cons a t => simp at this
   · exact h1
 
+/-! ### reachability that avoids a set
+
+`RA E A x y`: there is a walk `x → … → y` along `E` none of whose vertices (end points included)
+satisfies `A`. -/
+
+inductive RA (E : Nat → Nat → Prop) (A : Nat → Prop) : Nat → Nat → Prop
+  | refl {x : Nat} : ¬ A x → RA E A x x
+  | step {x w y : Nat} : ¬ A x → E x w → RA E A w y → RA E A x y
+
+namespace RA
+variable {E : Nat → Nat → Prop} {A B : Nat → Prop} {x y z : Nat}
+
+theorem src_not (h : RA E A x y) : ¬ A x := by
+  cases h <;> assumption
+
+theorem dst_not (h : RA E A x y) : ¬ A y := by
+  induction h with
+  | refl h => exact h
+  | step _ _ _ ih => exact ih
+
+theorem trans (h1 : RA E A x y) (h2 : RA E A y z) : RA E A x z := by
+  induction h1 with
+  | refl _ => exact h2
+  | step hx he _ ih => exact step hx he (ih h2)
+
+theorem mono (hAB : ∀ v, B v → A v) (h : RA E A x y) : RA E B x y := by
+  induction h with
+  | refl hx => exact refl (fun hb => hx (hAB _ hb))
+  | step hx he _ ih => exact step (fun hb => hx (hAB _ hb)) he ih
+
+/-- a walk avoiding `A` either avoids `B` as well or passes through a `B`-vertex -/
+theorem split (B : Nat → Prop) (h : RA E A x y) :
+    RA E (fun v => A v ∨ B v) x y ∨ ∃ p, B p ∧ RA E A x p ∧ RA E A p y := by
+  induction h with
+  | @refl x hx =>
+    by_cases hb : B x
+    · exact Or.inr ⟨x, hb, refl hx, refl hx⟩
+    · exact Or.inl (refl (by simp [hx, hb]))
+  | @step x w y hx he hwy ih =>
+    by_cases hb : B x
+    · exact Or.inr ⟨x, hb, refl hx, step hx he hwy⟩
+    · rcases ih with h1 | ⟨p, hp, h1, h2⟩
+      · exact Or.inl (step (by simp [hx, hb]) he h1)
+      · exact Or.inr ⟨p, hp, step hx he h1, h2⟩
+
+/-- the part of a walk after its last visit of `v` -/
+theorem last_visit (v : Nat) (h : RA E A x y) :
+    RA E (fun u => A u ∨ u = v) x y ∨ (¬ A v ∧ (y = v ∨ ∃ w, E v w ∧ RA E (fun u => A u ∨ u = v) w y)) := by
+  induction h with
+  | @refl x hx =>
+    by_cases hv : x = v
+    · subst hv; exact Or.inr ⟨hx, Or.inl rfl⟩
+    · exact Or.inl (refl (by simp [hx, hv]))
+  | @step x w y hx he hwy ih =>
+    rcases ih with h1 | h1
+    · by_cases hv : x = v
+      · subst hv; exact Or.inr ⟨hx, Or.inr ⟨w, he, h1⟩⟩
+      · exact Or.inl (step (by simp [hx, hv]) he h1)
+    · exact Or.inr h1
+
+theorem from_root (v : Nat) (h : RA E A v y) :
+    y = v ∨ ∃ w, E v w ∧ RA E (fun u => A u ∨ u = v) w y := by
+  rcases last_visit v h with h1 | h1
+  · exact absurd (Or.inr rfl) h1.src_not
+  · exact h1.2
+
+/-- reversal -/
+theorem flip (h : RA E A x y) : RA (fun a b => E b a) A y x := by
+  induction h with
+  | refl hx => exact refl hx
+  | @step x w y hx he _ ih => exact ih.trans (step (dst_not ih) he (refl hx))
+
+theorem congr (hAB : ∀ v, A v ↔ B v) : RA E A x y ↔ RA E B x y :=
+  ⟨mono (fun v => (hAB v).2), mono (fun v => (hAB v).1)⟩
+
+end RA
+
+/-! ### the specification of a depth-first search (white-path theorem + finishing order)
+
+`SpecN E ws A new`: started from the roots `ws` (in that order) with the vertices in `A` already visited,
+the search pushes the block `new` (last finished first) onto the stack: exactly the vertices reachable
+from a root avoiding `A`, each once, and for every pushed `x` and every `y` it reaches avoiding `A`, some
+vertex mutually reachable with `x` lies at or above `y` in the block. -/
+
+structure SpecN (E : Nat → Nat → Prop) (ws : List Nat) (A : Nat → Prop) (new : List Nat) : Prop where
+  nodup : new.Nodup
+  reach : ∀ y, y ∈ new ↔ ∃ w ∈ ws, RA E A w y
+  order : ∀ x ∈ new, ∀ y, RA E A x y →
+    ∃ z ∈ new, RA E A z x ∧ RA E A x z ∧ new.idxOf z ≤ new.idxOf y
+
+namespace SpecN
+variable {E : Nat → Nat → Prop} {A : Nat → Prop} {ws new new1 new2 : List Nat} {v w x y : Nat}
+
+theorem fresh (h : SpecN E ws A new) (hx : x ∈ new) : ¬ A x := by
+  obtain ⟨w, _, hw⟩ := (h.reach x).1 hx
+  exact hw.dst_not
+
+theorem closed (h : SpecN E ws A new) (hx : x ∈ new) (hxy : RA E A x y) : y ∈ new := by
+  obtain ⟨w, hw, hwx⟩ := (h.reach x).1 hx
+  exact (h.reach y).2 ⟨w, hw, hwx.trans hxy⟩
+
+theorem nil : SpecN E [] A [] := ⟨List.nodup_nil, by simp, by simp⟩
+
+theorem visited (hv : A v) : SpecN E [v] A [] := by
+  refine ⟨List.nodup_nil, ?_, by simp⟩
+  intro y
+  simp only [List.not_mem_nil, List.mem_singleton, exists_eq_left, false_iff]
+  intro h
+  exact h.src_not hv
+
+/-- two consecutive searches -/
+theorem append (h1 : SpecN E [w] A new1) (h2 : SpecN E ws (fun v => A v ∨ v ∈ new1) new2) :
+    SpecN E (w :: ws) A (new2 ++ new1) := by
+  have hdisj : ∀ a, a ∈ new2 → a ∉ new1 := fun a ha hb => h2.fresh ha (Or.inr hb)
+  have hmono : ∀ {a b}, RA E (fun v => A v ∨ v ∈ new1) a b → RA E A a b :=
+    fun h => h.mono (fun v hv => Or.inl hv)
+  refine ⟨?_, ?_, ?_⟩
+  · rw [List.nodup_append]
+    exact ⟨h2.nodup, h1.nodup, fun a ha b hb hab => hdisj a ha (hab ▸ hb)⟩
+  · intro y
+    constructor
+    · intro hy
+      rcases List.mem_append.1 hy with hy | hy
+      · obtain ⟨w', hw', hr⟩ := (h2.reach y).1 hy
+        exact ⟨w', List.mem_cons_of_mem _ hw', hmono hr⟩
+      · obtain ⟨w', hw', hr⟩ := (h1.reach y).1 hy
+        exact ⟨w', List.mem_cons.2 (Or.inl (List.mem_singleton.1 hw')), hr⟩
+    · rintro ⟨w', hw', hr⟩
+      rcases List.mem_cons.1 hw' with rfl | hw'
+      · exact List.mem_append_right _ ((h1.reach y).2 ⟨w', by simp, hr⟩)
+      · rcases hr.split (fun v => v ∈ new1) with hr' | ⟨p, hp, _, hpy⟩
+        · exact List.mem_append_left _ ((h2.reach y).2 ⟨w', hw', hr'⟩)
+        · exact List.mem_append_right _ (h1.closed hp hpy)
+  · intro x hx y hxy
+    rcases List.mem_append.1 hx with hx2 | hx1
+    · rcases hxy.split (fun v => v ∈ new1) with hr' | ⟨p, hp, _, hpy⟩
+      · obtain ⟨z, hz, hzx, hxz, hidx⟩ := h2.order x hx2 y hr'
+        have hy2 : y ∈ new2 := h2.closed hx2 hr'
+        refine ⟨z, List.mem_append_left _ hz, hmono hzx, hmono hxz, ?_⟩
+        rw [List.idxOf_append, List.idxOf_append, if_pos hz, if_pos hy2]
+        exact hidx
+      · have hy1 : y ∈ new1 := h1.closed hp hpy
+        have hy2 : y ∉ new2 := fun h => hdisj y h hy1
+        refine ⟨x, hx, RA.refl hxy.src_not, RA.refl hxy.src_not, ?_⟩
+        rw [List.idxOf_append, List.idxOf_append, if_pos hx2, if_neg hy2]
+        have := List.idxOf_lt_length_of_mem hx2
+        omega
+    · obtain ⟨z, hz, hzx, hxz, hidx⟩ := h1.order x hx1 y hxy
+      have hy1 : y ∈ new1 := h1.closed hx1 hxy
+      have hy2 : y ∉ new2 := fun h => hdisj y h hy1
+      have hz2 : z ∉ new2 := fun h => hdisj z h hz
+      refine ⟨z, List.mem_append_right _ hz, hzx, hxz, ?_⟩
+      rw [List.idxOf_append, List.idxOf_append, if_neg hz2, if_neg hy2]
+      omega
+
+/-- a search from an unvisited root `v`: mark it, search its successors, push it -/
+theorem root (hv : ¬ A v) (hws : ∀ w, w ∈ ws ↔ E v w) (h : SpecN E ws (fun u => A u ∨ u = v) new) :
+    SpecN E [v] A (v :: new) := by
+  have hvn : v ∉ new := fun hm => h.fresh hm (Or.inr rfl)
+  have hmono : ∀ {a b}, RA E (fun u => A u ∨ u = v) a b → RA E A a b :=
+    fun h => h.mono (fun v hv => Or.inl hv)
+  have hreach : ∀ y, y ∈ v :: new ↔ RA E A v y := by
+    intro y
+    constructor
+    · intro hy
+      rcases List.mem_cons.1 hy with rfl | hy
+      · exact RA.refl hv
+      · obtain ⟨w, hw, hr⟩ := (h.reach y).1 hy
+        exact RA.step hv ((hws w).1 hw) (hmono hr)
+    · intro hr
+      rcases hr.from_root with rfl | ⟨w, hw, hr'⟩
+      · exact List.mem_cons_self
+      · exact List.mem_cons_of_mem _ ((h.reach y).2 ⟨w, (hws w).2 hw, hr'⟩)
+  refine ⟨List.nodup_cons.2 ⟨hvn, h.nodup⟩, ?_, ?_⟩
+  · intro y
+    simp only [List.mem_singleton, exists_eq_left]
+    exact hreach y
+  · intro x hx y hxy
+    by_cases hxv : RA E A x v
+    · refine ⟨v, List.mem_cons_self, (hreach x).1 hx, hxv, ?_⟩
+      simp
+    · have hxne : x ≠ v := fun h => hxv (by rw [h]; exact RA.refl hv)
+      have hxn : x ∈ new := by
+        rcases List.mem_cons.1 hx with h | h
+        · exact absurd h hxne
+        · exact h
+      rcases hxy.split (fun u => u = v) with hr' | ⟨p, hp, hxp, _⟩
+      · obtain ⟨z, hz, hzx, hxz, hidx⟩ := h.order x hxn y hr'
+        have hyn : y ∈ new := h.closed hxn hr'
+        have hzne : v ≠ z := fun h => hvn (h ▸ hz)
+        have hyne : v ≠ y := fun h => hvn (h ▸ hyn)
+        refine ⟨z, List.mem_cons_of_mem _ hz, hmono hzx, hmono hxz, ?_⟩
+        have e1 : (v == z) = false := by simpa using hzne
+        have e2 : (v == y) = false := by simpa using hyne
+        rw [List.idxOf_cons, List.idxOf_cons, e1, e2]
+        simpa using hidx
+      · subst hp
+        exact absurd hxp hxv
+
+theorem congr {B : Nat → Prop} (hAB : ∀ v, A v ↔ B v) (h : SpecN E ws A new) : SpecN E ws B new := by
+  refine ⟨h.nodup, fun y => ?_, fun x hx y hxy => ?_⟩
+  · rw [h.reach y]
+    exact ⟨fun ⟨w, hw, hr⟩ => ⟨w, hw, (RA.congr hAB).1 hr⟩, fun ⟨w, hw, hr⟩ => ⟨w, hw, (RA.congr hAB).2 hr⟩⟩
+  · obtain ⟨z, hz, h1, h2, h3⟩ := h.order x hx y ((RA.congr hAB).2 hxy)
+    exact ⟨z, hz, (RA.congr hAB).1 h1, (RA.congr hAB).1 h2, h3⟩
+
+end SpecN
+
+/-! ### the executable DFS meets the specification, and the fuel suffices -/
+
+/-- number of vertices `< n` not yet visited -/
+def unv (n : Nat) (vis : List Nat) : Nat := (List.range n).countP (fun x => !vis.contains x)
+
+theorem unv_mono {n : Nat} {vis vis' : List Nat} (h : ∀ x, x ∈ vis → x ∈ vis') : unv n vis' ≤ unv n vis := by
+  unfold unv
+  apply List.countP_mono_left
+  intro x _ hx
+  simp only [Bool.not_eq_true', List.contains_eq_mem, decide_eq_false_iff_not] at hx ⊢
+  exact fun hm => hx (h x hm)
+
+theorem countP_cons_lt (v : Nat) (vis l : List Nat) (hv : v ∉ vis) :
+    l.countP (fun x => !(v :: vis).contains x) ≤ l.countP (fun x => !vis.contains x) ∧
+    (v ∈ l → l.countP (fun x => !(v :: vis).contains x) < l.countP (fun x => !vis.contains x)) := by
+  induction l with
+  | nil => simp
+  | cons a l ih =>
+    by_cases hav : a = v
+    · subst hav
+      have h1 : (!(a :: vis).contains a) = false := by simp
+      have h2 : (!vis.contains a) = true := by simp [hv]
+      rw [List.countP_cons, List.countP_cons, h1, h2]
+      simp only [Bool.false_eq_true, if_false, if_true]
+      refine ⟨by omega, fun _ => by omega⟩
+    · have h1 : (!(v :: vis).contains a) = (!vis.contains a) := by
+        simp [hav]
+      rw [List.countP_cons, List.countP_cons, h1]
+      refine ⟨by split <;> omega, fun hm => ?_⟩
+      have hm' : v ∈ l := by
+        rcases List.mem_cons.1 hm with h | h
+        · exact absurd h.symm hav
+        · exact h
+      have := ih.2 hm'
+      split <;> omega
+
+theorem unv_cons_lt {n v : Nat} {vis : List Nat} (hv : v < n) (hvis : v ∉ vis) : unv n (v :: vis) < unv n vis :=
+  (countP_cons_lt v vis (List.range n) hvis).2 (List.mem_range.2 hv)
+
+theorem unv_pos {n v : Nat} {vis : List Nat} (hv : v < n) (hvis : v ∉ vis) : 0 < unv n vis := by
+  have := unv_cons_lt hv hvis
+  omega
+
+/-- what a search procedure `rec` must deliver on every start vertex `< n` when at most `fuel` vertices are
+unvisited -/
+def DfsOk (E : Nat → Nat → Prop) (n fuel : Nat) (rec : Nat → St → Except Err St) : Prop :=
+  ∀ v vis st, v < n → unv n vis ≤ fuel →
+    ∃ new vis', rec v (vis, st) = .ok (vis', new ++ st) ∧ (∀ x, x ∈ vis' ↔ (x ∈ vis ∨ x ∈ new)) ∧
+      SpecN E [v] (fun u => u ∈ vis) new
+
+theorem forEach_spec {E : Nat → Nat → Prop} {n fuel : Nat} {rec : Nat → St → Except Err St}
+    (hrec : DfsOk E n fuel rec) (far : Nat → Option Nat) :
+    ∀ xs vis st, (∀ x ∈ xs, ∃ w, far x = some w ∧ w < n) → unv n vis ≤ fuel →
+      ∃ new vis', forEach rec far xs (vis, st) = .ok (vis', new ++ st) ∧
+        (∀ x, x ∈ vis' ↔ (x ∈ vis ∨ x ∈ new)) ∧ SpecN E (xs.filterMap far) (fun u => u ∈ vis) new := by
+  intro xs
+  induction xs with
+  | nil =>
+    intro vis st _ _
+    exact ⟨[], vis, by simp [forEach], by simp, SpecN.nil⟩
+  | cons e es ih =>
+    intro vis st hxs hfuel
+    obtain ⟨w, hw, hwn⟩ := hxs e List.mem_cons_self
+    obtain ⟨new1, vis1, hr1, hext1, hs1⟩ := hrec w vis st hwn hfuel
+    have hfuel1 : unv n vis1 ≤ fuel :=
+      Nat.le_trans (unv_mono (fun x hx => (hext1 x).2 (Or.inl hx))) hfuel
+    obtain ⟨new2, vis2, hr2, hext2, hs2⟩ :=
+      ih vis1 (new1 ++ st) (fun x hx => hxs x (List.mem_cons_of_mem _ hx)) hfuel1
+    refine ⟨new2 ++ new1, vis2, ?_, ?_, ?_⟩
+    · simp only [forEach, hw, hr1, hr2, List.append_assoc]
+    · intro x
+      rw [hext2 x, hext1 x, List.mem_append]
+      constructor
+      · rintro ((h | h) | h)
+        · exact Or.inl h
+        · exact Or.inr (Or.inr h)
+        · exact Or.inr (Or.inl h)
+      · rintro (h | h | h)
+        · exact Or.inl (Or.inl h)
+        · exact Or.inr h
+        · exact Or.inl (Or.inr h)
+    · have : (e :: es).filterMap far = w :: es.filterMap far := by
+        simp [hw]
+      rw [this]
+      exact SpecN.append hs1 (hs2.congr (fun v => hext1 v))
+
+theorem dfsG_spec {E : Nat → Nat → Prop} {n : Nat} {inc : Nat → List Nat} {far : Nat → Option Nat}
+    (hE : ∀ v w, E v w ↔ ∃ e ∈ inc v, far e = some w)
+    (hfar : ∀ v, ∀ e ∈ inc v, ∃ w, far e = some w)
+    (hn : ∀ v w, E v w → w < n) :
+    ∀ fuel, DfsOk E n fuel (dfsG inc far fuel) := by
+  intro fuel
+  induction fuel with
+  | zero =>
+    intro v vis st hv hfuel
+    by_cases hvis : v ∈ vis
+    · refine ⟨[], vis, by simp [dfsG, hvis], by simp, SpecN.visited hvis⟩
+    ·
+      have := unv_pos hv hvis
+      omega
+  | succ fuel ih =>
+    intro v vis st hv hfuel
+    by_cases hvis : v ∈ vis
+    · refine ⟨[], vis, by simp [dfsG, hvis], by simp, SpecN.visited hvis⟩
+    ·
+      have hfuel' : unv n (v :: vis) ≤ fuel := by
+        have := unv_cons_lt hv hvis
+        omega
+      have hxs : ∀ x ∈ inc v, ∃ w, far x = some w ∧ w < n := by
+        intro x hx
+        obtain ⟨w, hw⟩ := hfar v x hx
+        exact ⟨w, hw, hn v w ((hE v w).2 ⟨x, hx, hw⟩)⟩
+      obtain ⟨new, vis', hr, hext, hs⟩ := forEach_spec ih far (inc v) (v :: vis) st hxs hfuel'
+      refine ⟨v :: new, vis', ?_, ?_, ?_⟩
+      · simp [dfsG, hvis, hr]
+      · intro x
+        rw [hext x]
+        simp only [List.mem_cons]
+        constructor
+        · rintro ((h | h) | h)
+          · exact Or.inr (Or.inl h)
+          · exact Or.inl h
+          · exact Or.inr (Or.inr h)
+        · rintro (h | h | h)
+          · exact Or.inl (Or.inr h)
+          · exact Or.inl (Or.inl h)
+          · exact Or.inr h
+      · apply SpecN.root hvis (ws := (inc v).filterMap far)
+        · intro w
+          rw [List.mem_filterMap, hE]
+        · apply hs.congr
+          intro u
+          simp only [List.mem_cons]
+          exact ⟨fun h => h.symm, fun h => h.symm⟩
+
+/-! ### graphs: edges, reachability, well-formedness -/
+
+/-- there is an edge record with source `u` and destination `v` -/
+def Graph.Edge (g : Graph) (u v : Nat) : Prop := ∃ e : Nat, g.edges[e]? = some (u, v)
+
+/-- `v` can be reached from `u` along directed edges (every vertex reaches itself) -/
+inductive Graph.Reach (g : Graph) : Nat → Nat → Prop
+  | refl (u : Nat) : Graph.Reach g u u
+  | step {u w v : Nat} : g.Edge u w → Graph.Reach g w v → Graph.Reach g u v
+
+theorem reach_iff_RA (g : Graph) (u v : Nat) : g.Reach u v ↔ RA g.Edge (fun _ => False) u v := by
+  constructor
+  · intro h
+    induction h with
+    | refl u => exact RA.refl (fun h => h)
+    | step he _ ih => exact RA.step (fun h => h) he ih
+  · intro h
+    induction h with
+    | refl _ => exact Graph.Reach.refl _
+    | step _ he _ ih => exact Graph.Reach.step he ih
+
+theorem Graph.Reach.trans {g : Graph} {u v w : Nat} (h1 : g.Reach u v) (h2 : g.Reach v w) : g.Reach u w :=
+  (reach_iff_RA g u w).2 (((reach_iff_RA g u v).1 h1).trans ((reach_iff_RA g v w).1 h2))
+
+/-- the facts packed in `Graph.wfb` -/
+structure Graph.WF (g : Graph) : Prop where
+  range : ∀ (e s d : Nat), g.edges[e]? = some (s, d) → s < g.n ∧ d < g.n
+  out_src : ∀ (v e : Nat), e ∈ g.outEdges v → g.srcOf e = some v
+  in_dst : ∀ (v e : Nat), e ∈ g.inEdges v → g.dstOf e = some v
+  listed : ∀ (e s d : Nat), g.edges[e]? = some (s, d) → e ∈ g.outEdges s ∧ e ∈ g.inEdges d
+
+theorem Graph.wf_of_wfb (g : Graph) (h : g.wfb = true) : g.WF := by
+  simp only [Graph.wfb, Bool.and_eq_true, beq_iff_eq, List.all_eq_true, decide_eq_true_eq,
+    List.mem_range] at h
+  obtain ⟨⟨⟨⟨⟨h1, h2⟩, h3⟩, h4⟩, h5⟩, h6⟩ := h
+  refine ⟨?_, ?_, ?_, ?_⟩
+  · intro e s d he
+    have hm : (s, d) ∈ g.edges.toList := Array.mem_toList_iff.2 (Array.mem_of_getElem? he)
+    exact h3 _ hm
+  · intro v e he
+    by_cases hv : v < g.n
+    · exact h4 v hv e he
+    · have : g.outEdges v = [] := by
+        unfold Graph.outEdges
+        rw [Array.getElem?_eq_none (by omega)]
+        rfl
+      rw [this] at he
+      exact absurd he List.not_mem_nil
+  · intro v e he
+    by_cases hv : v < g.n
+    · exact h5 v hv e he
+    · have : g.inEdges v = [] := by
+        unfold Graph.inEdges
+        rw [Array.getElem?_eq_none (by omega)]
+        rfl
+      rw [this] at he
+      exact absurd he List.not_mem_nil
+  · intro e s d he
+    have hlt : e < g.edges.size := (Array.getElem?_eq_some_iff.1 he).1
+    have := h6 e hlt
+    rw [he] at this
+    simpa using this
+
+namespace Graph.WF
+variable {g : Graph}
+
+theorem edge_lt (h : g.WF) {u v : Nat} (he : g.Edge u v) : u < g.n ∧ v < g.n := by
+  obtain ⟨e, he⟩ := he
+  exact h.range e u v he
+
+theorem fwd (h : g.WF) (v w : Nat) : g.Edge v w ↔ ∃ e ∈ g.outEdges v, g.dstOf e = some w := by
+  constructor
+  · rintro ⟨e, he⟩
+    exact ⟨e, (h.listed e v w he).1, by simp [Graph.dstOf, he]⟩
+  · rintro ⟨e, he, hd⟩
+    have hs := h.out_src v e he
+    unfold Graph.srcOf at hs
+    unfold Graph.dstOf at hd
+    cases hp : g.edges[e]? with
+    | none => simp [hp] at hs
+    | some p =>
+      obtain ⟨a, b⟩ := p
+      simp [hp] at hs hd
+      exact ⟨e, by rw [hp, hs, hd]⟩
+
+theorem bwd (h : g.WF) (v w : Nat) : g.Edge w v ↔ ∃ e ∈ g.inEdges v, g.srcOf e = some w := by
+  constructor
+  · rintro ⟨e, he⟩
+    exact ⟨e, (h.listed e w v he).2, by simp [Graph.srcOf, he]⟩
+  · rintro ⟨e, he, hd⟩
+    have hs := h.in_dst v e he
+    unfold Graph.dstOf at hs
+    unfold Graph.srcOf at hd
+    cases hp : g.edges[e]? with
+    | none => simp [hp] at hs
+    | some p =>
+      obtain ⟨a, b⟩ := p
+      simp [hp] at hs hd
+      exact ⟨e, by rw [hp, hs, hd]⟩
+
+theorem fwd_some (h : g.WF) (v e : Nat) (he : e ∈ g.outEdges v) : ∃ w, g.dstOf e = some w := by
+  have hs := h.out_src v e he
+  unfold Graph.srcOf at hs
+  unfold Graph.dstOf
+  cases hp : g.edges[e]? with
+  | none => simp [hp] at hs
+  | some p => exact ⟨p.2, rfl⟩
+
+theorem bwd_some (h : g.WF) (v e : Nat) (he : e ∈ g.inEdges v) : ∃ w, g.srcOf e = some w := by
+  have hs := h.in_dst v e he
+  unfold Graph.dstOf at hs
+  unfold Graph.srcOf
+  cases hp : g.edges[e]? with
+  | none => simp [hp] at hs
+  | some p => exact ⟨p.1, rfl⟩
+
+theorem reach_lt (h : g.WF) {u v : Nat} (hr : g.Reach u v) (hu : u < g.n) : v < g.n := by
+  induction hr with
+  | refl _ => exact hu
+  | step he _ ih => exact ih (h.edge_lt he).2
+
+/-- forward search: `dfs g fuel` meets the DFS specification along the edges -/
+theorem dfs_ok (h : g.WF) (fuel : Nat) : DfsOk g.Edge g.n fuel (dfs g fuel) :=
+  dfsG_spec (h.fwd) (h.fwd_some) (fun _ _ he => (h.edge_lt he).2) fuel
+
+/-- backward search: `rdfs g fuel` meets the DFS specification along the reversed edges -/
+theorem rdfs_ok (h : g.WF) (fuel : Nat) : DfsOk (fun a b => g.Edge b a) g.n fuel (rdfs g fuel) :=
+  dfsG_spec (E := fun a b => g.Edge b a) (h.bwd) (h.bwd_some) (fun _ _ he => (h.edge_lt he).1) fuel
+
+end Graph.WF
+
+theorem unv_le (n : Nat) (vis : List Nat) : unv n vis ≤ n := by
+  unfold unv
+  have := List.countP_le_length (p := fun x => !vis.contains x) (l := List.range n)
+  simpa using this
+
+theorem fuel_ge (g : Graph) (vis : List Nat) : unv g.n vis ≤ g.fuel :=
+  Nat.le_trans (unv_le g.n vis) (by unfold Graph.fuel; omega)
+
 end Scc
 end Compass
